@@ -123,6 +123,16 @@ def make_scratch(tag, weave_files, native=False, client_bin=False, extra_cfg=())
             out.write("\n")
             out.write(open(src).read())
     rewrite_cargo_toml(s, native=native, client_bin=client_bin)
+    if client_bin:
+        # container model: the client and RtMessage::into_hash_map use a std HashMap, which CBMC
+        # cannot get through; only the `use` line changes, no function body is edited
+        for rel in ("src/message.rs", "src/bin/roughenough-client.rs"):
+            fp = os.path.join(s, rel)
+            txt = open(fp).read()
+            if "use std::collections::HashMap;" not in txt:
+                raise RuntimeError("%s no longer imports std::collections::HashMap the expected way" % rel)
+            txt = txt.replace("use std::collections::HashMap;", "use verif_hashmap::HashMap;", 1)
+            open(fp, "w").write(txt)
     return s
 
 
@@ -131,6 +141,7 @@ _DEP_REWRITES = {
     "mio": ("mio-model", "mio-model"),
     "mio-extras": ("mio-extras-model", "mio-extras-model"),
     "ring": ("ring-model", "ring-model"),
+    "yaml-rust": ("yaml-model", "yaml-model"),
 }
 
 
@@ -161,7 +172,7 @@ def rewrite_cargo_toml(s, native=False, client_bin=False):
         m = re.match(r'^([A-Za-z0-9_-]+)\s*=', st)
         if section == "[dependencies]" and m and m.group(1) in _DEP_REWRITES:
             d, pkg = _DEP_REWRITES[m.group(1)]
-            feats = ', features = ["native"]' if native and m.group(1) in ("ed25519-dalek", "ring") else ""
+            feats = ', features = ["native"]' if native and m.group(1) in ("ed25519-dalek", "ring", "yaml-rust") else ""
             out.append('%s = { path = "%s", package = "%s"%s }' % (m.group(1), os.path.join(SHIMS, d), pkg, feats))
             continue
         if section == "[package]" and st.startswith("edition"):
@@ -171,6 +182,9 @@ def rewrite_cargo_toml(s, native=False, client_bin=False):
             out.append("autoexamples = false")
             out.append("autotests = false")
             continue
+        if section == "[dependencies]" and st.startswith("ahash") and client_bin:
+            out.append('verif_hashmap = { path = "%s", package = "hashmap-model"%s }'
+                       % (os.path.join(SHIMS, "hashmap-model"), ', features = ["native"]' if native else ""))
         out.append(ln)
         if st == "[features]":
             # harness switches are cargo features of the scratch copy (RUSTFLAGS --cfg would
@@ -226,7 +240,7 @@ def run_kani(scratch, harnesses, jobs, harness_timeout, mem_kb, out_json, logfil
     env = dict(ENV)
     t0 = time.time()
     killed = []
-    with open(logfile, "w") as lf:
+    with open(logfile, "w", buffering=1) as lf:
         p = subprocess.Popen(cmd, cwd=scratch, env=env, stdout=subprocess.PIPE,
                              stderr=subprocess.STDOUT, text=True)
         stop = threading.Event()
